@@ -252,7 +252,7 @@ func genResult(rt *rapid.T, l string, faulty bool) sqlfake.Result {
 
 func genReq(rt *rapid.T, l string, faulty bool) Req {
 	r := Req{Kind: rapid.SampledFrom(kinds).Draw(rt, l+".kind")}
-	hostileParams := rapid.IntRange(0, 3).Draw(rt, l+".hp") == 0
+	hostileParams := faulty && rapid.IntRange(0, 3).Draw(rt, l+".hp") == 0
 	num := func(k string, def string) string {
 		if hostileParams {
 			return rapid.SampledFrom(numVals).Draw(rt, l+"."+k)
